@@ -120,6 +120,38 @@ def _itemsize(dtype):
         return 8
 
 
+# ---- NumPy's temporary elision ---------------------------------------------------------------------------------------------
+# In `a + b + c` NumPy computes the second addition IN PLACE in the temporary holding a + b when that temporary is referenced
+# only by the interpreter's value stack (refcount 1), owns its (large) buffer and has the result's dtype and shape
+# (numpy/_core/src/multiarray/temp_elide.c).  The ledger reproduces this for the operator dunders, with the same test NumPy uses
+# (the reference count of the operand object), calibrated at import on a named and an unnamed operand.
+import sys as _sys
+
+_COMMUTATIVE = {"add", "multiply", "bitwise_and", "bitwise_or", "bitwise_xor"}
+_ELIDE = [None]
+_CAL = {"on": False, "seen": []}
+_TEMP_RC = {"self": None, "other": None}
+
+
+def _same_extent(a, b):
+    if len(a) != len(b):
+        return False
+    for x, y in zip(a, b):
+        if isinstance(x, int) and isinstance(y, int):
+            if x != y:
+                return False
+        elif not (x is y or (isinstance(x, SInt) and isinstance(y, SInt) and x.e.eq(y.e))):
+            return False
+    return True
+
+
+def _same_dtype(a, b):
+    try:
+        return _np.dtype(a) == _np.dtype(b)
+    except TypeError:
+        return False
+
+
 class AArr:
     __array_priority__ = 1000.0
     _owns = False  # True for classes whose instances own a freshly allocated buffer
@@ -131,8 +163,14 @@ class AArr:
         self._led = None
         if LEDGER.on and self._owns:
             n = _prod(self.shape) * _itemsize(dtype)
-            self._led = n
-            LEDGER.alloc(n, type(self).__name__)
+            t = _ELIDE[0]
+            if t is not None and t._led is not None and _same_extent(t.shape, self.shape) and _same_dtype(t.dtype, dtype):
+                self._led, t._led = t._led, None  # computed in place in the temporary's buffer
+                if len(LEDGER.events) < 60:
+                    LEDGER.events.append(("=", "elided " + type(self).__name__, n))
+            else:
+                self._led = n
+                LEDGER.alloc(n, type(self).__name__)
             for a in self._children:  # a NumPy result does not keep its inputs alive
                 if a in self.__dict__:
                     setattr(self, a, None)
@@ -182,7 +220,22 @@ class AArr:
 
     # ---- arithmetic ----
     def _bin(self, other, name, swap=False):
-        return Elemwise(name, (other, self) if swap else (self, other))
+        if _CAL["on"]:
+            _CAL["seen"].append((_sys.getrefcount(self), _sys.getrefcount(other)))
+            return self
+        cand = None
+        if LEDGER.on and _TEMP_RC["self"] is not None:
+            if (not swap or name in _COMMUTATIVE) and self._owns and self._led is not None and _sys.getrefcount(self) <= _TEMP_RC["self"]:
+                cand = self
+            elif not swap and name in _COMMUTATIVE and isinstance(other, AArr) and other._owns and other._led is not None and _sys.getrefcount(other) <= _TEMP_RC["other"]:
+                cand = other
+        if cand is None:
+            return Elemwise(name, (other, self) if swap else (self, other))
+        _ELIDE[0] = cand
+        try:
+            return Elemwise(name, (other, self) if swap else (self, other))
+        finally:
+            _ELIDE[0] = None
 
     def __add__(s, o):
         return s._bin(o, "add")
@@ -254,6 +307,12 @@ class AArr:
 
     def __bool__(self):
         raise Unsupported("truth value of an abstract array (data-dependent control flow)")
+
+    def __array__(self, *a, **kw):
+        raise Unsupported(f"implicit conversion of an abstract {type(self).__name__} to a NumPy array (a NumPy function the stub does not model was called on it)")
+
+    def copy(self):
+        return Copy(self)
 
 
 class Src(AArr):
@@ -378,6 +437,40 @@ class Assembled(AArr):
         return total
 
 
+_BOOL_RESULT = {"equal", "not_equal", "less", "less_equal", "greater", "greater_equal", "isfinite", "isinf", "isnan", "logical_and", "logical_not",
+                "logical_or", "logical_xor", "signbit"}
+_FLOAT_RESULT = {"divide", "sqrt", "exp", "expm1", "log", "log1p", "log2", "log10", "sin", "cos", "tan", "sinh", "cosh", "tanh", "asin", "acos", "atan",
+                 "asinh", "acosh", "atanh", "atan2", "hypot", "logaddexp", "reciprocal"}
+
+
+def _result_dtype(fname, args, kw):
+    """NumPy's result dtype of an element-wise function (NEP 50: Python scalars are weak): decides how many bytes a temporary takes"""
+    if kw.get("dtype") is not None:
+        return kw["dtype"]
+    if fname == "astype" and len(args) >= 2:
+        return args[1]
+    first = next((a.dtype for a in args if isinstance(a, AArr)), None)
+    if fname in _BOOL_RESULT:
+        return _np.dtype(bool)
+    try:
+        ops = []
+        for a in (args[1:] if fname == "where" else args):
+            if isinstance(a, AArr):
+                ops.append(_np.dtype(a.dtype))
+            elif isinstance(a, (_np.ndarray, _np.generic)):
+                ops.append(a.dtype)
+            elif isinstance(a, (bool, int, float, complex)):
+                ops.append(a)
+            elif isinstance(a, (SInt,)):
+                ops.append(0)
+        rt = _np.result_type(*ops) if ops else first
+        if fname in _FLOAT_RESULT and _np.dtype(rt).kind in "biu":
+            rt = _np.dtype("float64")
+        return rt
+    except Exception:  # noqa: BLE001 - structured / unknown dtypes: keep the first operand's
+        return first
+
+
 class Elemwise(AArr):
     _owns = True
     _children = ('args',)
@@ -387,7 +480,7 @@ class Elemwise(AArr):
         self.kw = kw
         shapes = [a.shape for a in self.args if isinstance(a, AArr)]
         shape = broadcast_shapes(*shapes) if shapes else ()
-        dt = kw.get("dtype") or next((a.dtype for a in self.args if isinstance(a, AArr)), None)
+        dt = _result_dtype(fname, self.args, kw)
         super().__init__(shape, dt)
 
     def _arg_idx(self, a, idx):
@@ -445,6 +538,15 @@ class Reduce(AArr):
             shape = tuple(1 if d in self.axes else s for d, s in enumerate(base.shape))
         else:
             shape = tuple(s for d, s in enumerate(base.shape) if d not in self.axes)
+        if dtype is None:
+            if fname in ("argmax", "argmin", "nanargmax", "nanargmin"):
+                dtype = _np.dtype("int64")
+            elif fname in ("any", "all"):
+                dtype = _np.dtype(bool)
+            elif fname in ("mean",) and _np.dtype(base.dtype).kind in "biu":
+                dtype = _np.dtype("float64")
+            elif fname in ("sum", "prod", "nansum", "nanprod") and _np.dtype(base.dtype).kind in "biu" and _np.dtype(base.dtype).itemsize < 8:
+                dtype = _np.dtype("int64" if _np.dtype(base.dtype).kind in "bi" else "uint64")
         super().__init__(shape, dtype or base.dtype)
 
     def _base_idx(self, idx):
@@ -544,6 +646,26 @@ class Concat(AArr):
                     return p.sum_mult(rng, lidx, q)
             off = off + n
         return total
+
+
+class Copy(AArr):
+    """a fresh buffer holding the elements of `base` (numpy.take with a scalar index, .copy(), ascontiguousarray)"""
+
+    _owns = True
+    _children = ('base',)
+
+    def __init__(self, base):
+        self.base = base
+        super().__init__(base.shape, base.dtype)
+
+    def at(self, idx):
+        return self.base.at(idx)
+
+    def sum_mult(self, rng, idx, q):
+        return self.base.sum_mult(rng, idx, q)
+
+    def field(self, name):
+        return Copy(self.base.field(name))
 
 
 class BroadcastView(Elemwise):
@@ -1088,6 +1210,18 @@ class Namespace:
             axis = 0
         return Cum("cumulative_prod", x, axis, include_initial)
 
+    def take(self, x, indices, axis=None, **kw):
+        if not isinstance(x, AArr):
+            return self._real.take(x, indices, axis=axis, **kw)
+        if not _isint(indices):
+            raise Unsupported("take with a non-scalar index on an abstract array")
+        if axis is None:
+            if x.ndim != 1:
+                raise Unsupported("take without axis on an abstract array of more than one dimension")
+            axis = 0
+        axis = axis if axis >= 0 else axis + x.ndim
+        return Copy(make_slice(x, (slice(None),) * axis + (indices,)))
+
     def take_along_axis(self, x, indices, axis=-1):
         x, indices = _lift(x), _lift(indices)
         return Opaque(indices.shape, x.dtype, "take_along_axis", (x, indices))
@@ -1096,6 +1230,30 @@ class Namespace:
         if not isinstance(x, AArr):
             return self._real.astype(x, dtype, copy=copy)
         return Elemwise("astype", (x,), dtype=dtype)
+
+
+def _calibrate_elision():
+    """reference counts seen inside _bin for an UNNAMED operand (a temporary), learnt from `P() + named` and `named + P()`; a named
+    operand shows one more.  Disabled (no elision: the ledger then over-counts chained expressions) if the two do not differ by 1."""
+    class P(AArr):
+        pass
+
+    named = P((), _np.float64)
+    named2 = P((), _np.float64)
+    _CAL["on"], _CAL["seen"] = True, []
+    try:
+        named + named2
+        P((), _np.float64) + named
+        named + P((), _np.float64)
+    finally:
+        _CAL["on"] = False
+    (n_self, n_other), (t_self, _), (_, t_other) = _CAL["seen"]
+    if t_self == n_self - 1 and t_other == n_other - 1:
+        _TEMP_RC["self"], _TEMP_RC["other"] = t_self, t_other
+    return dict(_TEMP_RC)
+
+
+_calibrate_elision()
 
 
 def validate():
